@@ -364,15 +364,19 @@ def run_property(prop_id, tier, seed, only_shards=None, procs=None):
     violations = 0
     notes = []
     cap = 60 if tier == "quick" else 300
+    shrink_budget = 150 if tier == "quick" else 900   # total seconds spent shrinking over all buckets
+    t_shrink = 0.0
     for bucket, fs in buckets.items():
         fs.sort(key=lambda f: len(json.dumps(f["case"])))
         f0 = min(fs, key=lambda f: (f["shard"], f["index"]))
         spec = spec_by_name[f0["shard"]]
         best = None
-        if spec.get("shrinkable", True) and hasattr(mod, "shrink_shard"):
+        if spec.get("shrinkable", True) and hasattr(mod, "shrink_shard") and t_shrink < shrink_budget:
+            ts = time.time()
             with _pool(1) as pool:
                 status, payload = pool.apply(_worker, ((prop_id, spec, seed * 1000 + spec["seed_offset"], tier,
                                                         "shrink", {"bucket": bucket, "index": f0["index"], "cap_s": cap}),))
+            t_shrink += time.time() - ts
             if status == "ok" and payload is not None:
                 best = payload
         candidates = ([best] if best is not None else []) + [fs[0]["case"], f0["case"]]
